@@ -139,7 +139,7 @@ CONTRACTS.update({
         modifies=[],
     ),
     I + 'get_confirmed_incompatibility_edges': dict(
-        properties=['C06'],
+        properties=['C06', 'C02'],
         types={'graph': 'Ref[NxGraph]', 'start_nodes': 'Set[Ref]'},
         returns=f'Set[{EDGE}]',
         ghost={'S': 'Set[Ref]'},
@@ -165,6 +165,11 @@ CONTRACTS.update({
                 f"implies(exists('r:{EDGE}', r in result) and subset(start_nodes, S) and {CLOSED_S}, "
                 f"exists('e:{EDGE}', e in graph.edge_set and e[3] == EdgeType.INCOMPATIBILITY and (e[0] in S or e[1] in S)))"),
             'confirmed-are-the-closure': ('carrier', f"implies(subset(start_nodes, S) and {CLOSED_S}, subset(final_confirmed_nodes, S))"),
+            # what DSG.feasible relies on: an incompatibility edge is reported as soon as ONE of its ends is confirmed.
+            # (the infeasibility marker that applying a choice leaves behind replaces the derivation edge between the
+            # two ends, so its far end is not reachable any more: asking for both ends would report such a graph feasible)
+            'every-incompatibility-edge-with-a-confirmed-end-is-reported': ('property',
+                f"(exists('r:{EDGE}', r in result)) == exists('e:{EDGE}', e in graph.edge_set and e[3] == EdgeType.INCOMPATIBILITY and (e[0] in final_confirmed_nodes or e[1] in final_confirmed_nodes))"),
         },
         post_locals=['confirmed_nodes'],
         modifies=[],
@@ -380,3 +385,48 @@ def _domain_non_confirmed(n):
 
 
 DOMAIN[F + 'get_non_confirmed_nodes'] = _domain_non_confirmed
+
+
+def _domain_confirmed_incompat(n):
+    import random, os
+    import networkx as nx
+    from pyvc.replay import segment_callable
+    from adsg_core.graph.graph_edges import EdgeType, add_edge, HashableDict, get_edge_type
+    from adsg_core.graph.adsg_nodes import NamedNode, SelectionChoiceNode
+    key = I + 'get_confirmed_incompatibility_edges'
+    seg = segment_callable(key, dict(CONTRACTS[key], stop_before='return edges'), os.environ.get('VERIF_REPO', '/repo'))
+    rng = random.Random(8300 + int(os.environ.get('VERIF_SEED', '0') or 0))
+    types = [EdgeType.DERIVES, EdgeType.DERIVES, EdgeType.DERIVES, EdgeType.CONNECTS, EdgeType.INCOMPATIBILITY, EdgeType.INCOMPATIBILITY]
+    for _ in range(n):
+        nn = rng.randint(2, 8)
+        nodes = [SelectionChoiceNode(f'c{i}') if rng.random() < 0.25 else NamedNode(f'n{i}') for i in range(nn)]
+        g = nx.MultiDiGraph()
+        g.edge_attr_dict_factory = HashableDict
+        g.add_nodes_from(nodes)
+        es = set()
+        for _ in range(rng.randint(1, 12)):
+            u, v = rng.choice(nodes), rng.choice(nodes)
+            if u is v or (isinstance(u, SelectionChoiceNode) and isinstance(v, SelectionChoiceNode)):
+                continue
+            t = rng.choice(types)
+            key_ = g.new_edge_key(u, v)
+            add_edge(g, u, v, key=key_, edge_type=t)
+            es.add((u, v, key_, t))
+        g.edge_set = es
+        plain = [x for x in nodes if not isinstance(x, SelectionChoiceNode)]
+        if not plain:
+            continue
+        start = set(rng.sample(plain, rng.randint(1, min(2, len(plain)))))
+        env = {'graph': g, 'start_nodes': set(start), 'EdgeType': EdgeType, 'SelectionChoiceNode': SelectionChoiceNode}
+
+        def call(g=g, start=start):
+            r = seg(graph=g, start_nodes=set(start))
+            # the segment stops at `return edges`; edge data reduced to its type, as the contract's edge tuples
+            r.value = {(e[0], e[1], e[2], get_edge_type(e)) for e in r.locals.get('edges')}
+            return r
+        yield (env, call, {'Ref': nodes, EDGE: list(set(es) | {(a, b, 0, t) for u, v, k, t in es if t == EdgeType.INCOMPATIBILITY for a, b in ((u, v), (v, u))})},
+               f'get_confirmed_incompatibility_edges(nodes={[str(x) for x in nodes]}, edges={[(str(u), str(v), k, t.name) for u, v, k, t in es]}, '
+               f'start={[str(c) for c in start]})')
+
+
+DOMAIN[I + 'get_confirmed_incompatibility_edges'] = _domain_confirmed_incompat
